@@ -88,6 +88,16 @@ pub fn c20(m: &mut Mon, w: &mut World, idx: usize) {
     }
 }
 
+fn state_cid_of(s: &ExecutedState) -> Option<String> {
+    match s {
+        ExecutedState::Call(CallResult::Executed(ValueRef::Scalar(c))) => Some(c.get_inner().to_string()),
+        ExecutedState::Call(CallResult::Executed(ValueRef::Stream { cid, .. })) => Some(cid.get_inner().to_string()),
+        ExecutedState::Call(CallResult::Executed(ValueRef::Unused(c))) => Some(c.get_inner().to_string()),
+        ExecutedState::Call(CallResult::Failed(c)) => Some(c.get_inner().to_string()),
+        _ => None,
+    }
+}
+
 /// A merge that dies on a signature mismatch for peer P in a script whose stream-fold last instruction holds
 /// calls addressed to P is the downstream face of finding F22 (P's last-instruction result was dropped under
 /// another generation grouping while P's signature still covers it); everything else is a plain merge failure.
@@ -707,7 +717,14 @@ pub fn c14(m: &mut Mon, w: &mut World, idx: usize) {
                                     "peer {peer} eid {}: tampering [{kinds}] by {byz} was accepted: position {p} holds `{sf}` (attributed to {af:?}) where the untampered message gives `{st}` (attributed to {at:?})",
                                     w.runs[idx].eid
                                 );
-                                m.report(w, Some(idx), "C14", "accepted-altered-result", d);
+                                // the kind of a result (failed / executed) is bound neither by its content id nor by the
+                                // signature: finding F23 is exactly this one flip, of exactly one state
+                                let flip = matches!(st, ExecutedState::Call(CallResult::Failed(_)))
+                                    && matches!(sf, ExecutedState::Call(CallResult::Executed(_)))
+                                    && kinds == "kind_executed_failed"
+                                    && state_cid_of(st) == state_cid_of(sf);
+                                let tag = if flip { "accepted-kind-flip-failed-to-executed" } else { "accepted-altered-result" };
+                                m.report(w, Some(idx), "C14", tag, d);
                                 return;
                             }
                         }
